@@ -94,6 +94,9 @@ func Family(full bool) []FamDoc {
 		case "indirect-lengths":
 			d.IndirectLengths = true
 			b = d.Bytes()
+		case "indirect-lengths-zero":
+			d.IndirectLengths, d.ZeroLengths = true, true
+			b = d.Bytes()
 		default:
 			b = d.Bytes()
 		}
@@ -118,13 +121,13 @@ func Family(full bool) []FamDoc {
 		}
 	}
 	// (2) containers x numbering x extras on a 3-page nested document
-	for _, container := range []string{"classic", "xrefstream", "objstream", "indirect-lengths"} {
+	for _, container := range []string{"classic", "xrefstream", "objstream", "indirect-lengths", "indirect-lengths-zero"} {
 		for _, numbering := range []string{"dense", "gaps", "dangling-free-ref", "dangling-free-ref-gen1"} {
 			for _, extra := range []string{"none", "attachment", "outline", "filters", "no-info", "hazard-names", "shared-indirect-attrs"} {
-				if container == "indirect-lengths" && !(extra == "none" || extra == "filters") {
+				if strings.HasPrefix(container, "indirect-lengths") && !(extra == "none" || extra == "filters") {
 					continue
 				}
-				if !full && container == "indirect-lengths" && numbering != "dense" {
+				if strings.HasPrefix(container, "indirect-lengths") && numbering != "dense" && (!full || container == "indirect-lengths-zero") {
 					continue
 				}
 				if !full && !(extra == "none" || (container == "classic" && numbering == "dense") || (extra == "hazard-names" && numbering == "dense") || (container == "objstream" && numbering == "gaps" && extra == "filters")) {
@@ -181,15 +184,16 @@ func Family(full bool) []FamDoc {
 						k++
 					}
 				case "hazard-names":
-					// resource names and a dictionary key with bytes that need #xx escapes (UTF-8 no-break and ideographic spaces, '#', delimiter)
+					// resource names and a dictionary key with bytes that need #xx escapes (UTF-8 no-break and ideographic spaces, '#', delimiter);
+					// two names whose only special character is a literal '#' followed by two hex digits ("F#31" must not become "F1")
 					for _, nr := range sortedKeys(d.objs) {
 						o := d.objs[nr]
 						if strings.Contains(o.body, "/Type/Page/") {
-							o.body = strings.Replace(o.body, "/Font<</F1 ", "/Font<</Lime#c2#a0Green 3 0 R/Spot#e3#80#80One 3 0 R/A#23B#28 3 0 R/F1 ", 1)
+							o.body = strings.Replace(o.body, "/Font<</F1 ", "/Font<</Lime#c2#a0Green 3 0 R/Spot#e3#80#80One 3 0 R/A#23B#28 3 0 R/F#2331 3 0 R/Layer#2312 3 0 R/F1 ", 1)
 						}
 						if o.isStrm && strings.Contains(string(o.stream), " cm Q") {
 							// the content uses the fonts, so that optimisation keeps them
-							o.stream = append(o.stream, []byte("BT /Lime#c2#a0Green 9 Tf 10 10 Td (x) Tj /Spot#e3#80#80One 9 Tf (y) Tj /A#23B#28 9 Tf (z) Tj ET\n")...)
+							o.stream = append(o.stream, []byte("BT /Lime#c2#a0Green 9 Tf 10 10 Td (x) Tj /Spot#e3#80#80One 9 Tf (y) Tj /A#23B#28 9 Tf (z) Tj /F#2331 9 Tf (v) Tj /Layer#2312 9 Tf (w) Tj ET\n")...)
 						}
 					}
 				case "shared-indirect-attrs":
